@@ -59,6 +59,41 @@ SPECS = {
                    "add_node_sibling_of_target", "set_data_with_clones"],
         "assumptions": ASSUME_COMMON,
     },
+    "C05": {
+        "driver": H, "level": "exploration",
+        "runs": {"quick": 3000, "thorough": 200000},
+        "rule": "restart steps (save -> drop every live object -> load -> continue the history on "
+                "the loaded tree) at random points of seeded histories under a swarm of storage "
+                "options (key_map x value_map x compression x path/stream x mapper style x user "
+                "meta); the loaded tree is compared lock-step with the model projected through "
+                "persistence (class, shape, order, data as rebuilt, kinds, data_ids, clone "
+                "partition, file_meta). Non-trivial: >= 3 successful mutations and a restart "
+                "probe fired; distinct by run digest.",
+        "probes": ["restart_file", "restart_clone_below_sibling"],
+        "assumptions": ASSUME_COMMON,
+    },
+    "C12": {
+        "driver": H, "level": "exploration",
+        "runs": {"quick": 3000, "thorough": 200000},
+        "rule": "writing side: at every restart step the bytes nutree wrote are decoded by an "
+                "independent reference codec of the documented layout and compared with the "
+                "model (header, pre-order, 1-based parent positions, clone references, key/value "
+                "shortening). Reading side: see coverage.reading_side. Non-trivial: >= 3 "
+                "successful mutations and a restart probe fired.",
+        "probes": ["restart_file"],
+        "assumptions": ASSUME_COMMON,
+    },
+    "C14": {
+        "driver": H, "level": "exploration",
+        "runs": {"quick": 3000, "thorough": 200000},
+        "rule": "restart steps through the dict form (to_dict_list -> optional JSON dump/load -> "
+                "from_dict -> continue) inside seeded histories of untyped trees; the structure "
+                "must mirror the model and the rebuilt tree must equal the model projected "
+                "(shape, order, data, custom ids, clone partition).",
+        "probes": ["restart_dict"],
+        "assumptions": ASSUME_COMMON,
+        "cfg_overrides": {"restart_via": "dict"},
+    },
     "C07": {
         "driver": H, "level": "exploration",
         "runs": {"quick": 4000, "thorough": 400000},
